@@ -68,3 +68,19 @@ Definition trig_blank_line (ws_lines : bool) (esc : Z -> text) (cs : list cue) :
 (* line-out-of-range: a line percentage outside 0..100 *)
 Definition trig_line_range (cs : list cue) : bool :=
   existsb (fun c => match c_line c with Some (l, _) => (l <? 0) || (100 <? l) | None => false end) cs.
+(* nested-span-resets-style: a span holding text whose computed weight / style / decoration is the default while an
+   enclosing span's is bold / italic / underlined (its characters stay inside the outer span's tags) *)
+Fixpoint reset_in (ob oi ou : bool) (e : elem) : bool :=
+  match e with
+  | Elem a cs =>
+      match e_kind a with
+      | KSpan =>
+          let b := is_element_bold a in let i := is_element_italic a in let u := is_element_underlined a in
+          (((ob && negb b) || (oi && negb i) || (ou && negb u)) && has_text e) ||
+          (fix go (l : list elem) : bool := match l with [] => false | c :: l' => reset_in (ob || b) (oi || i) (ou || u) c || go l' end) cs
+      | KRuby => false
+      | _ => (fix go (l : list elem) : bool := match l with [] => false | c :: l' => reset_in ob oi ou c || go l' end) cs
+      end
+  end.
+Definition trig_reset_style (seq : list (Q * list elem)) : bool :=
+  existsb (fun x => existsb (reset_in false false false) (snd x)) seq.
